@@ -100,7 +100,9 @@ def run(check):
             ia, ib = len(versions) - 2, len(versions) - 1
             hist += [ia, ib, ib, ia]
         if rng.random() < 0.7:
-            hist.insert(rng.randint(1, len(hist)), hist[rng.randrange(len(hist))])     # an exact repetition
+            hist.insert(rng.randint(1, len(hist)), hist[rng.randrange(len(hist))])     # a return to an earlier version
+        k = rng.randrange(len(hist))
+        hist.insert(k, hist[k])                                                        # an immediate re-run on unchanged inputs
         check.saw((lang, multi, tuple(hist), json.dumps(versions, sort_keys=True)), nontrivial=len(set(hist)) < len(hist))
         check.count("%s-%s" % (lang, "multi" if multi else "single"))
         with Scratch() as sc:
@@ -113,13 +115,23 @@ def run(check):
                 ref[vi] = (r["rc"], outputs_of(sc.path("ref%d" % vi)))
             fs_model = []          # [path, bytes, mtime] with abstract times = step index
             real_prev = {}
+            # how the destination is spelled on the command line (the same file every time): absolute, relative with a directory
+            # part, `./name`, or a bare file name resolved against the working directory
+            spell = ["absolute", "bare", "relative", "dot"][(h // 12 + h) % 4]
+            check.count("destination-spelled-" + spell)
             for step, vi in enumerate(hist):
                 cfg_args = write_tree(sc, "ws", versions[vi])
                 time.sleep(0.02)
-                tgt = ["-d", sc.path("out")] if multi else ["-o", sc.path("out/out.%s" % EXT[lang])]
-                if not multi:
-                    os.makedirs(sc.path("out"), exist_ok=True)
-                r = run_cli(["--lang", lang] + tgt + lang_args(lang) + cfg_args + [sc.path("ws")], cwd=sc.dir)
+                os.makedirs(sc.path("out"), exist_ok=True)
+                cwd = sc.dir
+                if multi:
+                    tgt = ["-d", sc.path("out")] if spell == "absolute" else ["-d", "out"] if spell == "relative" else ["-d", "./out"] if spell == "dot" else ["-d", "."]
+                    cwd = sc.path("out") if spell == "bare" else sc.dir
+                else:
+                    fn = "out.%s" % EXT[lang]
+                    tgt = {"absolute": ["-o", sc.path("out/" + fn)], "relative": ["-o", "out/" + fn], "dot": ["-o", "./" + fn], "bare": ["-o", fn]}[spell]
+                    cwd = sc.path("out") if spell in ("dot", "bare") else sc.dir
+                r = run_cli(["--lang", lang] + tgt + lang_args(lang) + cfg_args + [sc.path("ws")], cwd=cwd)
                 real = outputs_of(sc.path("out"))
                 rc_ref, outs_ref = ref[vi]
                 # the model: Writer.run on the reference outputs (in path order = crate order)
@@ -151,7 +163,7 @@ def run(check):
                     mismatches += 1
                     failing = True
                     check.violation("history %s, step %d (%s, %s): %s" % (hist, step, lang, "-d" if multi else "-o", problem),
-                                    case={"lang": lang, "multi_file": multi, "versions": versions, "history": hist, "step": step},
+                                    case={"lang": lang, "multi_file": multi, "versions": versions, "history": hist, "step": step, "destination_spelled": spell},
                                     impl={"files": {f: {"mtime_ns": mt, "bytes": b[:2000]} for f, (b, mt) in real.items()}, "stderr": r["err"][-1000:]},
                                     model={"fs": fs_model, "actions": ans["actions"]}, failing_input=failing)
                     break
